@@ -397,6 +397,7 @@ class Ob:
     facts: str = ""    # what supports / refutes it
     note: bool = False  # cross-reference note: reported, never a violation
     positive: bool = False  # the failure rests on something *found* (a forbidden call, a wrong operand), not on something missing
+    discharged_by: tuple = ()  # names of the calls that would discharge the obligation: an unreadable helper that mentions none cannot
 
     @property
     def key(self) -> str:
@@ -425,8 +426,8 @@ class Collector:
         self.info: Dict[str, object] = {}
         self.errors: List[str] = []
 
-    def add(self, rule, construct, ok, where, text, facts="", note=False, positive=False) -> Ob:
-        ob = Ob(rule, construct, bool(ok), where, text, facts, note, positive)
+    def add(self, rule, construct, ok, where, text, facts="", note=False, positive=False, discharged_by=()) -> Ob:
+        ob = Ob(rule, construct, bool(ok), where, text, facts, note, positive, tuple(discharged_by))
         self.obs.append(ob)
         return ob
 
@@ -541,7 +542,7 @@ def _table_dispatch_in(fn: ast.AST, private: bool) -> Optional[str]:
     return None
 
 
-def unresolved_dispatch(repo: "Repo", where: str, depth: int = 3) -> Optional[str]:
+def unresolved_dispatch(repo: "Repo", where: str, depth: int = 3, needs: tuple = ()) -> Optional[str]:
     """The function a violation is located in, or a private helper it calls (these are inlined into it), dispatches through a table."""
     try:
         rel, line = where.rsplit(":", 1)
@@ -600,6 +601,11 @@ def unresolved_dispatch(repo: "Repo", where: str, depth: int = 3) -> Optional[st
                                             "alternative patterns", "positional class patterns", "star patterns", "positional-only"))
             if not unreadable:
                 continue
+            if needs and not any((isinstance(x, ast.Attribute) and x.attr in needs) or (isinstance(x, ast.Name) and x.id in needs)
+                                 or (isinstance(x, ast.Constant) and x.value in needs)
+                                 or (isinstance(x, ast.Call) and isinstance(x.func, ast.Name) and x.func.id in ("getattr", "setattr", "eval", "exec"))
+                                 for g in fns_by_name.get(hname, []) for x in ast.walk(g)):
+                continue    # whatever the helper does, it does not do what the obligation misses
             if hname in called and _is_private(hname) and not (hname.startswith("__") and hname.endswith("__")):
                 return f"{fn.name}: the private helper {why.split(':', 1)[0]} could not be dissolved ({why.split(':', 1)[1].strip()[:60]})"
     except Exception:
@@ -625,7 +631,7 @@ def run_property(prop: str, tier: str, check: Callable, floors: Dict[str, int], 
         # the statements the rule looks for may sit behind the table
         for o in list(col.obs):
             if not o.ok and not o.note and not o.positive and o.key not in known_keys:
-                why = unresolved_dispatch(repo, o.where)
+                why = unresolved_dispatch(repo, o.where, needs=o.discharged_by)
                 if why:
                     col.errors.append(f"{o.rule} @ {o.construct}: not decided -- {why}")
                     col.obs.remove(o)
